@@ -27,7 +27,7 @@ class C14(SessionCheck):
     RULE = ('byte streams from a mutation grammar over valid frame sequences (drop/insert/flip a byte, chunk size +-1 / 0 / leading zero / '
             '20 digits, missing LF, end-of-chunks first, truncation anywhere, invalid UTF-8 and NUL inserted anywhere, garbage prefix, '
             'duplicated delimiter; 1-3 mutations) x random segmentations, both versions; plus bounded-exhaustive streams over the alphabet '
-            '{LF # 1 2 0 ] > x C3 A9} (quick: length <= 5, thorough: <= 7) x {whole, every single cut}. Non-trivial = the reference decoder '
+            '{LF # 1 2 0 ] > x C3 A9} (quick: length <= 5, thorough: <= 6) x {whole, every single cut}. Non-trivial = the reference decoder '
             'finds a framing violation, an undecodable payload, or >= 1 payload; distinct by (version, reads). Plus lock-step session histories '
             '(odd / hostile messages, faults) compared with Model/Session, with the stop invariant evaluated on the real objects.')
     TRUST = SessionCheck.TRUST + ['the reference RFC 4742/6242 decoders in harness/oracle/framing_spec.py']
@@ -42,7 +42,7 @@ class C14(SessionCheck):
         n = 2500 if tier == 'quick' else 60000
         for _ in range(n):
             out.append(G.gen_hostile_case(rng))
-        maxlen = 5 if tier == 'quick' else 7
+        maxlen = 5 if tier == 'quick' else 6
         for base11 in (True, False):
             alpha = G.SMALL_ALPHA if base11 else [b']', b'>', b'x', b'\xc3', b'\xa9', b' ']
             ml = maxlen if base11 else maxlen + 2
@@ -51,7 +51,7 @@ class C14(SessionCheck):
                     continue
                 self._exh += 1
                 out.append({'base11': base11, 'muts': ['exhaustive'], 'segs': [s.hex()]})
-                if len(s) <= (4 if tier == 'quick' else 6):
+                if len(s) <= (4 if tier == 'quick' else 5):
                     for cut in range(1, len(s)):
                         out.append({'base11': base11, 'muts': ['exhaustive'], 'segs': [s[:cut].hex(), s[cut:].hex()]})
         return out
